@@ -27,6 +27,8 @@ var (
 	hugeCounter int
 )
 
+var hugeAllLengths bool // replay: every length
+
 var hugeLengths = []int{1<<22 + 1, 1<<23 + 3, 1<<24 + 3}
 var hugeProcs = []int{0, 3, 4} // 0: leave GOMAXPROCS as it is
 
@@ -65,7 +67,9 @@ func (g *Kern) hugeScreenOpt(sk, dk Kind, specials []uint64, force bool) {
 		return
 	}
 	lengths := hugeLengths
-	if force {
+	if hugeAllLengths {
+		lengths = hugeLengths
+	} else if force {
 		lengths = hugeLengths[:1]
 		if genTier == "thorough" {
 			lengths = hugeLengths[:2]
@@ -113,6 +117,22 @@ func (g *Kern) hugeScreenOpt(sk, dk Kind, specials []uint64, force bool) {
 				b = fmt.Sprintf("pos=%d sample=%s got=%s want=%s", i, cellString(specials[i%m], sk), cellString(dst.Sample(i), dk), cellString(ref[i%m], dk))
 			}
 			g.goref("C05", "position-wise-at-any-length", strings.ReplaceAll(b, " ", "_"), fmt.Sprintf("entry=%s sk=%s dk=%s n=%d", convName(sk, dk), sk, dk, L))
+		}
+		if len(bad) > 0 && !force {
+			// (also as a native verdict of the function's own property, so that the replay re-runs this screen)
+			props := "C06,C07"
+			switch {
+			case sk.IsFloat() && dk.IsFloat():
+				props = "C05"
+			case sk.IsFloat():
+				props = "C08"
+			case dk.IsFloat():
+				props = "C09"
+			}
+			i := bad[0]
+			g.goref(props, "huge-position-independence",
+				fmt.Sprintf("pos=%d_sample=%s_got=%s_want=%s", i, cellString(specials[i%m], sk), cellString(dst.Sample(i), dk), cellString(ref[i%m], dk)),
+				fmt.Sprintf("entry=%s sk=%s dk=%s n=%d", convName(sk, dk), sk, dk, L))
 		}
 		if len(bad) > 0 {
 			g.st.branch("huge-screen-differs")
